@@ -77,6 +77,15 @@ def c10(tier, seed):
         for k in range(0, n + 1):
             for rel in ("EQ", "LT", "GT"):
                 cases.append(card_case([(rel, k, vs)], 2 * n, ident="%s sparse n=%d k=%d" % (rel, n, k)))
+    # sequences of requests over ONE variable list in one call (a band, an exact count plus a bound, k of growing and of
+    # shrinking bit width, three requests): later requests must not depend on what earlier ones built
+    for n in ((4, 5) if tier == "quick" else (3, 4, 5, 6, 7)):
+        allv = list(range(1, n + 1))
+        for (r1, k1) in (("LT", 2), ("GT", 1), ("EQ", 1), ("GT", 0), ("LT", n)):
+            for (r2, k2) in (("LT", n), ("GT", n - 1), ("EQ", 2), ("EQ", n - 1), ("LT", 1), ("GT", 0)):
+                cases.append(card_case([(r1, k1, allv), (r2, k2, allv)], n, ident="same list n=%d %s%d then %s%d" % (n, r1, k1, r2, k2)))
+        cases.append(card_case([("GT", 0, allv), ("LT", n, allv), ("EQ", 2, allv)], n, ident="same list n=%d three requests" % n))
+        cases.append(card_case([("LT", 2, allv), ("LT", 2, list(reversed(allv)))], n, ident="same set n=%d reversed order" % n))
     # two requests sharing variables; a non-empty initial CNF
     m = 12 if tier == "quick" else 80
     for _ in range(m):
